@@ -48,11 +48,11 @@ Definition all_indices (N : nat) : list key :=
   flat_map (fun i => map (fun j => (i, j)) (seq 0 N)) (seq 0 N).
 
 Inductive cop : Type :=
-| Fill (S : list key)            (* fill(InitialIndices) *)
+| Fill (ks : list key)           (* fill(InitialIndices) *)
 | SetK (k : key)                 (* set(Indices) *)
 | IsIn (k : key)                 (* isInContainer *)
 | Lookup (k : key)               (* operator()(Index1, Index2) *)
-| PrepareAll (S : list key)      (* GFContainer::prepareAll *)
+| PrepareAll (ks : list key)     (* GFContainer::prepareAll *)
 | ComputeAll                     (* GFContainer::computeAll *)
 | PrepareAt (k : key)            (* container(i,j).prepare()  -- through the returned reference *)
 | ComputeAt (k : key).           (* container(i,j).compute() *)
@@ -87,8 +87,8 @@ Fixpoint fill_loop (st : cstate) (II : list key) : cstate * cout :=
     end
   end.
 (** fill  (IndexContainer2.h:63-85): ElementsMap.clear(); II = empty ? all : given *)
-Definition do_fill (st : cstate) (S : list key) : cstate * cout :=
-  let II := match set_of S with [] => all_indices N | s => s end in
+Definition do_fill (st : cstate) (ks : list key) : cstate * cout :=
+  let II := match set_of ks with [] => all_indices N | s => s end in
   fill_loop (mkc [] (next_id st)) II.
 
 Definition upd_status (f : status -> status) (k : key) (m : list (key * elem)) : list (key * elem) :=
@@ -105,12 +105,12 @@ Definition do_lookup (st : cstate) (k : key) : cstate * cout :=
 
 Definition cstep (st : cstate) (o : cop) : cstate * cout :=
   match o with
-  | Fill S => do_fill st S
+  | Fill ks => do_fill st ks
   | SetK k => do_set st k
   | IsIn k => (st, OBool (match mfind k (emap st) with Some _ => true | None => false end))
   | Lookup k => do_lookup st k
-  | PrepareAll S =>
-    match do_fill st S with
+  | PrepareAll ks =>
+    match do_fill st ks with
     | (st', OThrows) => (st', OThrows)
     | (st', _) => (mkc (all_status status_max_prepared (emap st')) (next_id st'), OUnit)
     end
